@@ -26,19 +26,19 @@ Proof.
   intros Hh H. revert hi' Hh. induction H; intros hi' Hh.
   - apply so_nil. lia.
   - apply so_other; auto.
-  - eapply so_group; eauto. lia.
+  - apply (so_group hi' lo v b c g r); [lia|assumption|assumption|assumption].
 Qed.
 Lemma sent_ok_app a b c l1 l2 : sent_ok a b l1 -> sent_ok b c l2 -> sent_ok a c (l1 ++ l2).
 Proof.
   intros H1 H2. induction H1.
   - cbn. eapply sent_ok_hi; eauto.
   - cbn. apply so_other; auto.
-  - rewrite <- app_assoc. eapply so_group; eauto.
+  - rewrite <- app_assoc. eapply so_group; [eassumption|eassumption|eassumption|auto].
 Qed.
 Lemma sent_ok_nosend hi lo l : nosend l -> lo <= hi -> sent_ok hi lo l.
 Proof. induction 1; intros; [now apply so_nil|apply so_other; auto]. Qed.
 Lemma sent_ok_one v lo b c g : lo <= v -> wf_pdu (v mod 256) b -> attempt b c g -> sent_ok v lo g.
-Proof. intros. rewrite <- (app_nil_r g). eapply so_group; eauto; [lia|now apply so_nil]. Qed.
+Proof. intros. rewrite <- (app_nil_r g). apply (so_group v lo v b c g []); [lia|assumption|assumption|apply so_nil; assumption]. Qed.
 
 Definition S (w w' : world) : Prop :=
   M w w' /\ exists items, out w' = rev items ++ out w /\ sent_ok (version (sk w)) (version (sk w')) items.
@@ -203,4 +203,108 @@ Proof.
        (apply (S_intro _ _ []); [mfin|reflexivity|nosend_tac|vred]);
        repeat match goal with H : _ && _ = true |- _ => apply andb_true_iff in H as [? ?] end;
        repeat match goal with H : (_ =? _) = true |- _ => apply Z.eqb_eq in H end; lia.
+Qed.
+
+Lemma handle_error_pdu_S p w : relS (handle_error_pdu p) w.
+Proof.
+  unfold handle_error_pdu. repeat sstep; try apply change_state_S.
+  unfold rel; unfold_prims. apply (S_intro _ _ []); [mfin|reflexivity|nosend_tac|vred].
+  repeat match goal with H : _ && _ = true |- _ => apply andb_true_iff in H as [? ?] end.
+  repeat match goal with H : (_ <? _) = true |- _ => apply Z.ltb_lt in H end. lia.
+Qed.
+
+Definition small (p : list byte) : Prop := zlen p <= 123.
+
+Lemma small_rep_ok p text : small p -> zlen text <= 100 -> rep_ok p text.
+Proof. unfold small, rep_ok. change c_RTR_MAX_PDU_LEN with 3248. lia. Qed.
+
+Lemma report_update_failure_S p c k w : small p -> relS (report_update_failure p c k) w.
+Proof.
+  intros Hs. unfold report_update_failure. destruct k.
+  all: repeat sstep; try apply change_state_S; apply send_error_from_host_S; apply small_rep_ok; auto;
+    rewrite ?len_pfx_flags, ?len_key_flags, ?zlen_nil; lia.
+Qed.
+
+Lemma src_remove_all_S w : relS src_remove_all w.
+Proof. unfold src_remove_all. repeat sstep; try sprim. Qed.
+Lemma purge_after_failed_undo_S w : relS purge_after_failed_undo w.
+Proof. unfold purge_after_failed_undo. repeat sstep; try apply src_remove_all_S; try sprim. Qed.
+
+(* traces of the table updates contain no send items; a failing update names a PDU of the list *)
+Lemma upd_pfx_nosend live f r X : nosend (snd (upd_pfx live f r X)).
+Proof. unfold upd_pfx. repeat match goal with |- context [if ?c then _ else _] => destruct c end; cbn [snd]; nosend_tac. Qed.
+Lemma upd_key_nosend live f r X : nosend (snd (upd_key live f r X)).
+Proof. unfold upd_key. repeat match goal with |- context [if ?c then _ else _] => destruct c end; cbn [snd]; nosend_tac. Qed.
+
+Lemma apply_pfx_facts live ps : forall X done X' t f,
+  apply_pfx live ps X done = (X', t, f) ->
+  nosend t /\ match f with Some (bad, _, _) => In bad ps | None => True end.
+Proof.
+  induction ps as [|p ps IH]; intros X done X' t f H; cbn [apply_pfx] in H.
+  - injection H as _ <- <-. split; [nosend_tac|exact I].
+  - pose proof (upd_pfx_nosend live (pdu_flags p) (prec_of_pdu p) X) as Hn.
+    destruct (upd_pfx live (pdu_flags p) (prec_of_pdu p) X) as [[X1 c] t1]. cbn [snd] in Hn.
+    destruct (c =? 0).
+    + destruct (apply_pfx live ps X1 (p :: done)) as [[X2 t2] f2] eqn:E. injection H as _ <- <-.
+      apply IH in E. destruct E as [Hn2 Hf]. split; [nosend_tac|]. destruct f2 as [[[bad ?] ?]|]; [now right|exact I].
+    + injection H as _ <- <-. split; [nosend_tac|now left].
+Qed.
+Lemma apply_keys_facts live ps : forall X done X' t f,
+  apply_keys live ps X done = (X', t, f) ->
+  nosend t /\ match f with Some (bad, _, _) => In bad ps | None => True end.
+Proof.
+  induction ps as [|p ps IH]; intros X done X' t f H; cbn [apply_keys] in H.
+  - injection H as _ <- <-. split; [nosend_tac|exact I].
+  - pose proof (upd_key_nosend live (pdu_flags p) (krec_of_pdu p) X) as Hn.
+    destruct (upd_key live (pdu_flags p) (krec_of_pdu p) X) as [[X1 c] t1]. cbn [snd] in Hn.
+    destruct (c =? 0).
+    + destruct (apply_keys live ps X1 (p :: done)) as [[X2 t2] f2] eqn:E. injection H as _ <- <-.
+      apply IH in E. destruct E as [Hn2 Hf]. split; [nosend_tac|]. destruct f2 as [[[bad ?] ?]|]; [now right|exact I].
+    + injection H as _ <- <-. split; [nosend_tac|now left].
+Qed.
+Lemma undo_pfx_nosend live done : forall X X' t ok, undo_pfx live done X = (X', t, ok) -> nosend t.
+Proof.
+  induction done as [|p done IH]; intros X X' t ok H; cbn [undo_pfx] in H.
+  - injection H as _ <- _. nosend_tac.
+  - pose proof (upd_pfx_nosend live (1 - pdu_flags p) (prec_of_pdu p) X) as Hn.
+    destruct (upd_pfx live (1 - pdu_flags p) (prec_of_pdu p) X) as [[X1 c] t1]. cbn [snd] in Hn.
+    destruct (c =? 0).
+    + destruct (undo_pfx live done X1) as [[X2 t2] ok2] eqn:E. injection H as _ <- _. apply IH in E. nosend_tac.
+    + injection H as _ <- _. nosend_tac.
+Qed.
+Lemma undo_keys_nosend live done : forall X X' t ok, undo_keys live done X = (X', t, ok) -> nosend t.
+Proof.
+  induction done as [|p done IH]; intros X X' t ok H; cbn [undo_keys] in H.
+  - injection H as _ <- _. nosend_tac.
+  - pose proof (upd_key_nosend live (1 - pdu_flags p) (krec_of_pdu p) X) as Hn.
+    destruct (upd_key live (1 - pdu_flags p) (krec_of_pdu p) X) as [[X1 c] t1]. cbn [snd] in Hn.
+    destruct (c =? 0).
+    + destruct (undo_keys live done X1) as [[X2 t2] ok2] eqn:E. injection H as _ <- _. apply IH in E. nosend_tac.
+    + injection H as _ <- _. nosend_tac.
+Qed.
+
+Lemma apply_eod_intervals_version s p : version (apply_eod_intervals s p) = version s.
+Proof. unfold apply_eod_intervals. destruct (_ && _); reflexivity. Qed.
+
+(* hypotheses about the traces of the pure table functions, brought into the context by [sstep]'s destructs *)
+Ltac trace_facts :=
+  repeat match goal with
+  | H : apply_pfx _ _ _ _ = (_, _, _) |- _ => apply apply_pfx_facts in H; destruct H as [? ?]
+  | H : apply_keys _ _ _ _ = (_, _, _) |- _ => apply apply_keys_facts in H; destruct H as [? ?]
+  | H : undo_pfx _ _ _ = (_, _, _) |- _ => apply undo_pfx_nosend in H
+  | H : undo_keys _ _ _ = (_, _, _) |- _ => apply undo_keys_nosend in H
+  end.
+
+Lemma Forall_small_in l bad : Forall small l -> In bad l -> small bad.
+Proof. intros H Hi. rewrite Forall_forall in H. now apply H. Qed.
+
+Theorem process_eod_S p v4 v6 ks w :
+  small p -> Forall small v4 -> Forall small v6 -> Forall small ks -> relS (process_eod p v4 v6 ks) w.
+Proof.
+  intros Hp H4 H6 Hk. unfold process_eod.
+  repeat sstep; subst; trace_facts;
+    try apply change_state_S; try apply purge_after_failed_undo_S;
+    try (apply report_update_failure_S; eapply Forall_small_in; eauto; fail);
+    try (apply send_error_from_host_S; apply small_rep_ok; [exact Hp|pose proof (len_eod_session (session_id (sk w)) (get16 p 2)); lia]);
+    try (sprim; rewrite ?apply_eod_intervals_version; lia).
 Qed.
